@@ -165,7 +165,16 @@ func timerTok(d time.Duration) int {
 // reporterCall is invoked by the recording reporters for every call they receive.
 func (r *coreRun) reporterCall(kind, name string, tags map[string]string, i int64, f float64, d time.Duration) {
 	if r.s != nil {
-		r.s.Yield("rp_" + kind) // every reporter call is its own action (a pass can be held inside a slow reporter)
+		// every reporter call is its own action (a pass can be held inside a slow reporter); the step carries the
+		// delivered value in model units (step-level replay compares it with the model's)
+		var a int64
+		switch kind {
+		case "counter":
+			a = r.units(i)
+		case "gauge":
+			a = int64(r.gaugeTok(f))
+		}
+		r.s.Hook("rp_"+kind, nil, a, 0)
 	}
 	t := ""
 	if r.s != nil {
